@@ -51,13 +51,50 @@ theorem C06_ctx_error_only_if_cancelled {cfg s s'} {i : Nat}
 /-! ### own reply, single delivery -/
 
 /-- a held response was made from a peer stanza of type result/error with the caller's id and
-stanza kind -/
+the caller's stanza kind (local name) — whatever namespace form the request was sent with — and
+whose namespace is the request's, or any if the request carried none -/
 theorem C06_own_reply {cfg s} (hr : Reach cfg s) {i k : Nat} (h : (s.rpc i).held = some k) :
-    ∃ st, s.hist[k]? = some st ∧ st.resp = true ∧ st.id = cfg.ids i ∧ st.kind = cfg.kinds i := by
+    ∃ st, s.hist[k]? = some st ∧ st.resp = true ∧ st.id = cfg.ids i ∧ st.kind = cfg.kinds i ∧
+      (cfg.spaces i = st.ns ∨ cfg.spaces i = .empty) := by
   have hB := (inv_reach hr).2
   obtain ⟨⟨hlt, hm⟩, _, _⟩ := hB.holdMatch i k h
-  refine ⟨s.hist[k], by simp [hlt], ?_⟩
-  exact hm _ (by simp [hlt])
+  have hget : s.hist[k]? = some s.hist[k] := by simp [hlt]
+  refine ⟨s.hist[k], hget, ?_⟩
+  have := hm _ hget
+  refine ⟨this.1, this.2.1, this.2.2.1, ?_⟩
+  have hn := this.2.2.2
+  simp only [nsMatch, Bool.or_eq_true, beq_iff_eq] at hn
+  exact hn
+
+/-- kind equality for every namespace form of the request, stated on the lookup itself: a
+stanza of another kind never matches, not even when the namespaces are equal -/
+theorem C06_lookup_kind {cfg s st j} (h : lookup cfg s st = some j) :
+    cfg.kinds j = st.kind ∧ st.resp = true ∧ s.table st.id = some j ∧
+    (cfg.spaces j = st.ns ∨ cfg.spaces j = .empty) := by
+  have := lookup_some h
+  refine ⟨this.2.2.1, this.1, this.2.1, ?_⟩
+  have hn := this.2.2.2
+  simp only [nsMatch, Bool.or_eq_true, beq_iff_eq] at hn
+  exact hn
+
+example : lookup { ids := fun i => i, kinds := fun _ => .iq, derived := true, spaces := fun _ => .stream }
+    { init with table := fun _ => some 0 } ⟨.message, 0, true, .stream⟩ = none := by
+  simp [lookup]
+example : lookup { ids := fun i => i, kinds := fun _ => .iq, derived := true, spaces := fun _ => .stream }
+    { init with table := fun _ => some 0 } ⟨.iq, 0, true, .stream⟩ = some 0 := by
+  simp [lookup, nsMatch]
+example : lookup { ids := fun i => i, kinds := fun _ => .iq, derived := true, spaces := fun _ => .other }
+    { init with table := fun _ => some 0 } ⟨.iq, 0, true, .stream⟩ = none := by
+  simp [lookup, nsMatch]
+
+/-- only result/error stanzas consult the table: any other stanza (an incoming get/set IQ, a
+chat message, an available presence) goes to the handler even if its id is that of a pending
+request, and every waiter keeps waiting -/
+theorem C06_only_responses_consult_table {cfg s st} (hidle : s.spc = .idle) (hn : st.resp = false) :
+    ∃ s', step cfg s (.read st) = some s' ∧ s'.hlog = s.hist.length :: s.hlog ∧ s'.spc = .idle ∧
+      s'.rpc = s.rpc ∧ s'.table = s.table := by
+  have hl : lookup cfg s st = none := by simp [lookup, hn]
+  simp [step, hidle, hl]
 
 /-- a response reaches at most one caller … -/
 theorem C06_single_delivery {cfg s} (hr : Reach cfg s) {i i' k : Nat}
@@ -73,7 +110,8 @@ theorem C06_delivery_exclusive {cfg s} (hr : Reach cfg s) {i k : Nat}
 
 /-- "nobody waits" = no entry of that id and stanza name at lookup time -/
 theorem C06_lookup_none_iff {cfg s st} :
-    lookup cfg s st = none ↔ ¬ (st.resp = true ∧ ∃ j, s.table st.id = some j ∧ cfg.kinds j = st.kind) := by
+    lookup cfg s st = none ↔
+      ¬ (st.resp = true ∧ ∃ j, s.table st.id = some j ∧ cfg.kinds j = st.kind ∧ nsMatch (cfg.spaces j) st.ns = true) := by
   unfold lookup
   split
   · split
@@ -210,18 +248,18 @@ def cfgSnapshot : Cfg := { ids := fun i => i, kinds := fun _ => .iq, derived := 
 theorem C06_progress_serve_fails_without_fix :
     ¬ (∀ s, Reach cfgSnapshot s → ServeProgress cfgSnapshot s) := by
   intro h
-  have hr : ∃ s, run cfgSnapshot init [.call 0, .read ⟨.iq, 0, true⟩, .sendFail 0, .dereg 0] = some s := by
-    simp [run, step, init, lookup, upd, cfgSnapshot]
+  have hr : ∃ s, run cfgSnapshot init [.call 0, .read ⟨.iq, 0, true, .stream⟩, .sendFail 0, .dereg 0] = some s := by
+    simp [run, step, init, lookup, upd, cfgSnapshot, nsMatch]
   obtain ⟨s, hs⟩ := hr
   have := h s (reach_run Reach.init hs)
-  simp [run, step, init, lookup, upd, cfgSnapshot] at hs
+  simp [run, step, init, lookup, upd, cfgSnapshot, nsMatch] at hs
   subst hs
   simp [ServeProgress, step, ctxDone, upd, cfgSnapshot] at this
 
 /-- the same schedule is harmless in the repaired code -/
 example : ∃ s, run { cfgSnapshot with derived := true } init
-    [.call 0, .read ⟨.iq, 0, true⟩, .sendFail 0, .dereg 0, .abandon] = some s ∧ s.spc = .idle := by
-  simp [run, step, init, lookup, upd, cfgSnapshot, ctxDone]
+    [.call 0, .read ⟨.iq, 0, true, .stream⟩, .sendFail 0, .dereg 0, .abandon] = some s ∧ s.spc = .idle := by
+  simp [run, step, init, lookup, upd, cfgSnapshot, ctxDone, nsMatch]
 
 /-! ### receipts helper -/
 open Receipts
